@@ -7,6 +7,7 @@ CONSTANTS
   GEx = {{}, {"a"}}
   GMax = {1, 1000000000}
   GOps = {"prefix", "rm", "strat"}
+  GPairs = 3
 SPECIFICATION GSpec
 CONSTRAINT EmitBeh
 CHECK_DEADLOCK FALSE
